@@ -62,13 +62,17 @@ func defaultReturnHandler() ReturnHandler {
 			return
 		}
 
-		// An empty byte slice has nothing to send, just like nil and the empty string.
-		if respVal.IsZero() || (isByteSlice(respVal) && respVal.Len() == 0) {
-			return
+		if canDeref(respVal) {
+			if respVal.IsNil() {
+				return
+			}
+			respVal = respVal.Elem()
 		}
 
-		if canDeref(respVal) {
-			respVal = respVal.Elem()
+		// An empty byte slice has nothing to send, just like nil and the empty string,
+		// also when it is what a pointer or an interface value leads to.
+		if respVal.IsZero() || (isByteSlice(respVal) && respVal.Len() == 0) {
+			return
 		}
 
 		if isByteSlice(respVal) {
